@@ -337,6 +337,27 @@ impl PlainSecretParams {
             _ => {}
         }
 
+        // Do not lock with parameters that `EncryptedSecretParams::unlock` refuses.
+        match &s2k_params {
+            S2kParams::Aead { s2k, .. } => ensure!(
+                matches!(
+                    s2k,
+                    StringToKey::Argon2 { .. } | StringToKey::IteratedAndSalted { .. }
+                ),
+                "S2K usage AEAD is not allowed with S2K type {:?}",
+                s2k.id()
+            ),
+            S2kParams::Cfb { s2k, .. } if version == KeyVersion::V6 => ensure!(
+                matches!(
+                    s2k,
+                    StringToKey::IteratedAndSalted { .. } | StringToKey::Salted { .. }
+                ),
+                "Version 6 keys may not use the weak S2k type {:?}",
+                s2k
+            ),
+            _ => {}
+        }
+
         match &s2k_params {
             S2kParams::Unprotected => bail!("cannot encrypt to unprotected"),
             S2kParams::Cfb { sym_alg, s2k, iv } => {
